@@ -355,3 +355,207 @@ impl serde::ser::Error for NoMsg {
 pub(crate) fn stub_fmt_format(_args: std::fmt::Arguments<'_>) -> String {
     String::new()
 }
+
+// ---------------------------------------------------------------------------------------------
+// Linear-scan stand-in for `std::collections::HashSet<SocketAddr>` (RoutingTable.routers under
+// cfg(kani)): std's hashbrown probing is not tractable in CBMC even on concrete data (DESIGN.md
+// F4/F17). Set semantics only (membership, insertion without duplicates); no property depends on
+// hashing. Fixed capacity, no heap. Covered by `c12_router_set_standin_laws`.
+// ---------------------------------------------------------------------------------------------
+pub(crate) mod vset {
+    pub const CAP: usize = 4;
+
+    #[derive(Clone, Debug)]
+    pub struct HashSet<T: Copy + PartialEq> {
+        items: [Option<T>; CAP],
+        len: usize,
+    }
+
+    impl<T: Copy + PartialEq> Default for HashSet<T> {
+        fn default() -> Self {
+            HashSet { items: [None; CAP], len: 0 }
+        }
+    }
+
+    impl<T: Copy + PartialEq> HashSet<T> {
+        pub fn new() -> Self {
+            Self::default()
+        }
+
+        pub fn contains(&self, v: &T) -> bool {
+            let mut i = 0;
+            while i < CAP {
+                if i < self.len {
+                    if let Some(x) = &self.items[i] {
+                        if x == v {
+                            return true;
+                        }
+                    }
+                }
+                i += 1;
+            }
+            false
+        }
+
+        pub fn insert(&mut self, v: T) -> bool {
+            if self.contains(&v) {
+                return false;
+            }
+            assert!(self.len < CAP, "verif: router set stand-in holds at most 4 addresses");
+            self.items[self.len] = Some(v);
+            self.len += 1;
+            true
+        }
+
+        pub fn len(&self) -> usize {
+            self.len
+        }
+
+        pub fn is_empty(&self) -> bool {
+            self.len == 0
+        }
+
+        pub fn iter(&self) -> impl Iterator<Item = &T> {
+            self.items[..self.len].iter().filter_map(|x| x.as_ref())
+        }
+    }
+
+    impl<T: Copy + PartialEq> std::iter::FromIterator<T> for HashSet<T> {
+        fn from_iter<I: IntoIterator<Item = T>>(iter: I) -> Self {
+            let mut s = Self::default();
+            for v in iter {
+                s.insert(v);
+            }
+            s
+        }
+    }
+}
+
+// ---------------------------------------------------------------------------------------------
+// Linear-scan stand-in for `std::collections::HashMap` (storage.rs under cfg(kani)); DESIGN.md F17.
+// Map semantics only, API subset storage.rs uses. Fixed capacity, keys compared with `==`.
+// ---------------------------------------------------------------------------------------------
+pub(crate) mod vmap {
+    pub const CAP: usize = 2;
+
+    pub struct HashMap<K: PartialEq, V> {
+        slots: [Option<(K, V)>; CAP],
+    }
+
+    pub enum Entry<'a, K: PartialEq, V> {
+        Occupied(OccupiedEntry<'a, K, V>),
+        Vacant(VacantEntry<'a, K, V>),
+    }
+
+    pub struct OccupiedEntry<'a, K: PartialEq, V> {
+        slot: &'a mut Option<(K, V)>,
+    }
+
+    pub struct VacantEntry<'a, K: PartialEq, V> {
+        slot: &'a mut Option<(K, V)>,
+        key: K,
+    }
+
+    impl<'a, K: PartialEq, V> OccupiedEntry<'a, K, V> {
+        pub fn get_mut(&mut self) -> &mut V {
+            match self.slot {
+                Some((_, v)) => v,
+                None => unreachable!(),
+            }
+        }
+    }
+
+    impl<'a, K: PartialEq, V> VacantEntry<'a, K, V> {
+        pub fn insert(self, v: V) -> &'a mut V {
+            *self.slot = Some((self.key, v));
+            match self.slot {
+                Some((_, v)) => v,
+                None => unreachable!(),
+            }
+        }
+    }
+
+    impl<K: PartialEq, V> HashMap<K, V> {
+        pub fn new() -> Self {
+            HashMap { slots: [None, None] }
+        }
+
+        fn index_of(&self, k: &K) -> Option<usize> {
+            let mut i = 0;
+            while i < CAP {
+                if let Some((kk, _)) = &self.slots[i] {
+                    if kk == k {
+                        return Some(i);
+                    }
+                }
+                i += 1;
+            }
+            None
+        }
+
+        pub fn get(&self, k: &K) -> Option<&V> {
+            match self.index_of(k) {
+                Some(i) => self.slots[i].as_ref().map(|kv| &kv.1),
+                None => None,
+            }
+        }
+
+        pub fn get_mut(&mut self, k: &K) -> Option<&mut V> {
+            match self.index_of(k) {
+                Some(i) => self.slots[i].as_mut().map(|kv| &mut kv.1),
+                None => None,
+            }
+        }
+
+        pub fn contains_key(&self, k: &K) -> bool {
+            self.index_of(k).is_some()
+        }
+
+        pub fn insert(&mut self, k: K, v: V) -> Option<V> {
+            match self.entry(k) {
+                Entry::Occupied(mut o) => Some(std::mem::replace(o.get_mut(), v)),
+                Entry::Vacant(vac) => {
+                    vac.insert(v);
+                    None
+                }
+            }
+        }
+
+        pub fn remove(&mut self, k: &K) -> Option<V> {
+            match self.index_of(k) {
+                Some(i) => self.slots[i].take().map(|kv| kv.1),
+                None => None,
+            }
+        }
+
+        pub fn len(&self) -> usize {
+            let mut n = 0;
+            let mut i = 0;
+            while i < CAP {
+                if self.slots[i].is_some() {
+                    n += 1;
+                }
+                i += 1;
+            }
+            n
+        }
+
+        pub fn entry(&mut self, k: K) -> Entry<'_, K, V> {
+            match self.index_of(&k) {
+                Some(i) => Entry::Occupied(OccupiedEntry { slot: &mut self.slots[i] }),
+                None => {
+                    let mut free = CAP;
+                    let mut i = 0;
+                    while i < CAP {
+                        if free == CAP && self.slots[i].is_none() {
+                            free = i;
+                        }
+                        i += 1;
+                    }
+                    assert!(free < CAP, "verif: map stand-in holds at most 2 keys");
+                    Entry::Vacant(VacantEntry { slot: &mut self.slots[free], key: k })
+                }
+            }
+        }
+    }
+}
